@@ -127,32 +127,54 @@ def _dio_call(e):
 
 
 def _path_facts(func, call, parent, inits):
-    """facts {flag: polarity} implied by the if-conditions enclosing `call`."""
+    """facts {flag: polarity} that hold on every path reaching `call`: for each branch condition
+    that dominates the call, the edge (true/false) through which the call is exclusively reached.
+    Decided on the CFG, so nesting, early return / break / continue are all the same."""
     facts = {}
-    node = call
-    for anc in ancestors(call, parent):
-        if anc.kind == 'IfStmt':
-            kids = list(anc.kids)
-            x = anc.x or {}
-            if x.get('hasInit'):
-                kids.pop(0)
-            if x.get('hasVar'):
-                kids.pop(0)
-            cond = kids[0]
-            then = kids[1] if len(kids) > 1 else None
-            els = kids[2] if len(kids) > 2 else None
-            branch = None
-            if then is not None and _contains(then, node):
-                branch = True
-            elif els is not None and _contains(els, node):
-                branch = False
-            if branch is not None:
-                for atom, pol in _conj_atoms(cond, branch):
-                    fl = _flag_of_expr(func, atom, inits)
-                    if fl:
-                        facts[fl[0]] = (fl[1] == pol)
-        node = anc
+    cfg = cfg_of(func)
+    cn = cfg.cnode_of(call)
+    if cn is None:
+        return facts
+    doms = cfg.dominators().get(cn, set())
+    for d in doms:
+        node = cfg.nodes[d]
+        if node.kind != 'cond' or node.ast is None or d == cn:
+            continue
+        fl = _flag_of_expr(func, node.ast, inits)
+        if not fl:
+            continue
+        t = [w for (w, lab) in cfg.succ[d] if lab is True]
+        f = [w for (w, lab) in cfg.succ[d] if lab is False]
+        via_t = cn in cfg.forward_reachable(t, {d})
+        via_f = cn in cfg.forward_reachable(f, {d})
+        if via_t != via_f:
+            facts[fl[0]] = (fl[1] == via_t)
     return facts
+
+
+def kind_facts(func, call):
+    """set of (enumerator, equal?) facts about `<x>.kind` that hold on every path to `call`"""
+    from ..descriptors import _kind_test
+    out = set()
+    cfg = cfg_of(func)
+    cn = cfg.cnode_of(call)
+    if cn is None:
+        return out
+    for d in cfg.dominators().get(cn, set()):
+        node = cfg.nodes[d]
+        if node.kind != 'cond' or node.ast is None or d == cn:
+            continue
+        kt = _kind_test(node.ast)
+        if kt is None:
+            continue
+        t = [w for (w, lab) in cfg.succ[d] if lab is True]
+        f = [w for (w, lab) in cfg.succ[d] if lab is False]
+        via_t = cn in cfg.forward_reachable(t, {d})
+        via_f = cn in cfg.forward_reachable(f, {d})
+        if via_t != via_f:
+            en, eq = kt
+            out.add((en, eq == via_t))
+    return out
 
 
 def _contains(root, node):
@@ -324,9 +346,14 @@ def k5(ctx):
             for p in preds:
                 pn = cfg.cnode_of(p)
                 ctx.require(pn is not None, 'predicate call not in CFG of %s' % inst(f))
-                ctx.require(cfg.nodes[pn].kind == 'cond',
-                            '%s: the predicate result is not used as a branch condition (%s); '
-                            'idiom not recognised' % (inst(f), cfg.nodes[pn]))
+                if cfg.nodes[pn].kind != 'cond':
+                    # not a branch condition: the order can still be decided
+                    if pn in cfg.forward_reachable([gn]) and pn != gn:
+                        ok = False
+                        why.append('the predicate is consulted after GetKind')
+                        continue
+                    ctx.fail('%s: the predicate result is not used as a branch condition (%s); '
+                             'idiom not recognised' % (inst(f), cfg.nodes[pn]))
                 # (a) GetKind not reachable from the predicate's true edge within one activation
                 true_succ = [w for (w, lab) in cfg.succ[pn]
                              if lab is True and (pn, w) not in cfg.back_edges]
